@@ -7,7 +7,7 @@ from vlib import bf3model as M
 from vlib import ossl
 from vlib import strategies as S
 from vlib import sut
-from vlib.core import Part, Violation
+from vlib.core import Part, Violation, case_hash
 
 PROPERTY = "C09"
 LEVEL = "exploration"
@@ -17,7 +17,7 @@ RULE = (
     "selector | 04 | X | Y | 16 bytes, (X,Y) on P-256, shared = x(d*(X,Y)) by EC_POINT_mul, key = sha256(shared)[:16], AES-CBC zero-IV decrypt == session key. "
     "default: no encryptor / EccEncryptor(sel) / Bec2File.write_file without recipient - the ephemeral scalar is learnt through a recording wrapper registered "
     "via the public crypto registry and the block must open under e*Q_sel with the harness's own pinned copy of the four published keys. "
-    "interop: blocks sealed by the model are opened by EccDecryptor.decrypt. rawder: raw 64-byte <-> DER conversion vs i2d_PUBKEY. "
+    "interop: blocks sealed by the model are opened by EccDecryptor.decrypt. leading_zero: ephemeral scalars CONSTRUCTED (searched with OpenSSL) so that the shared x-coordinate has a leading 00 byte, in both directions. rawder: raw 64-byte <-> DER conversion vs i2d_PUBKEY. "
     "reject: EccDecryptor.decrypt on ephemeral points that are off-curve, have a coordinate >= p, are (0,0), or lie on secp256k1 / brainpoolP256r1 must raise. "
     "Every case has a fresh ephemeral key / distinct inputs, so every case is non-trivial; distinct by case hash."
 )
@@ -26,36 +26,11 @@ ASSUMPTIONS = [
     "any exception counts as refusal of an invalid ephemeral point (types are judged in C14)",
 ]
 REQUIRED_CLASSES = ["sel=0", "sel=1", "sel=2", "sel=3", "edge-scalar", "default.no-encryptor", "default.encryptor(sel)", "default.write_file",
-                    "reject.off-curve", "reject.coord>=p", "reject.zero", "reject.other-curve", "key.ends00"]
+                    "shared-x.leading-zero", "reject.off-curve", "reject.coord>=p", "reject.zero", "reject.other-curve", "key.ends00"]
 
 B2 = sut.B2
 P = 0xFFFFFFFF00000001000000000000000000000000FFFFFFFFFFFFFFFFFFFFFFFF
 N = S.P256_N
-
-
-class RecKey:
-    """Recording wrapper around the registered private-key class (registered through the public API)."""
-
-    def __init__(self):
-        self.scalars = []
-        base = sut.CR.__dict__["__PrivateEccKey"]
-        outer = self
-
-        class Rec(base):
-            @classmethod
-            def generate(cls):
-                k = base.generate()
-                outer.scalars.append(k.private_key.privkey.secret_multiplier)
-                return k
-
-        self.cls = Rec
-
-    def __enter__(self):
-        sut.bec2format.register_PrivateEccKey(self.cls)
-        return self
-
-    def __exit__(self, *a):
-        sut.registry_restore()
 
 
 def _shape(block, sel):
@@ -82,10 +57,15 @@ def check_explicit(case, rec):
     enc = dec if case["via"] == "decryptor" else B2.EccEncryptor(sel, dec.public_key)
     others = [B2.EccEncryptor((sel + 1) % 4)] if case.get("decoy") else []
     try:
-        block = B2.InitEccAuthBlock(sel).pack(key, others + [enc])
+        with sut.DetKeys(case_hash(case), fixed=case.get("eph_fixed", ())) as dk:
+            block = B2.InitEccAuthBlock(sel).pack(key, others + [enc])
     except Exception as e:
         raise Violation("pack raised %s: %s" % (type(e).__name__, e))
     _shape(block, sel)
+    if case.get("eph_fixed"):
+        rec.cls("shared-x.leading-zero")
+        if dk.scalars != list(case["eph_fixed"]):
+            raise Violation("ephemeral key generator consulted %d times for one block" % len(dk.scalars))
     try:
         got = M.ecies_open(priv, block[1:])
     except M.Reject as r:
@@ -106,7 +86,7 @@ def check_default(case, rec):
     rec.cls("sel=%d" % sel)
     rec.cls("default." + how)
     rec.nt()
-    with RecKey() as rk:
+    with sut.DetKeys(case_hash(case)) as rk:
         try:
             if how == "no-encryptor":
                 block = B2.InitEccAuthBlock(sel).pack(key, [])
@@ -213,6 +193,37 @@ def strat_explicit(tier):
     return st.fixed_dictionaries(dict(sel=st.integers(0, 3), priv=S.ecc_priv(), key=_key, via=st.sampled_from(["decryptor", "encryptor"]), decoy=st.booleans()))
 
 
+def enum_leading_zero(tier, shard, nshards, rng):
+    """CONSTRUCTED: ephemeral scalars searched (with OpenSSL) so that the ECDH shared x-coordinate has 1 or 2 leading 0x00 bytes;
+    the library seals with exactly that ephemeral key (deterministic key generator registered through the public registry) and,
+    in the other direction, opens a model-sealed block."""
+    g = M.p256()
+    n = 0
+    for priv in (1, 2, 0x1234567890ABCDEF, S.P256_N - 2):
+        pub = g.mul(priv)
+        k = 1
+        found = 0
+        while found < (2 if tier == "quick" else 6):
+            k += 1
+            x = g.mul_point(k, pub)[0]
+            if x >> 248 == 0:
+                found += 1
+                n += 1
+                if n % nshards != shard:
+                    continue
+                key = bytes(rng.getrandbits(8) for _ in range(16))
+                yield dict(kind="seal", sel=n % 4, priv=priv, key=key, via="decryptor" if n % 2 else "encryptor", decoy=False, eph_fixed=[k])
+                yield dict(kind="open", sel=n % 4, priv=priv, key=key, eph=k)
+
+
+def check_leading_zero(case, rec):
+    if case["kind"] == "seal":
+        check_explicit(case, rec)
+    else:
+        rec.cls("shared-x.leading-zero")
+        check_interop(case, rec)
+
+
 def strat_default(tier):
     return st.fixed_dictionaries(dict(sel=st.integers(0, 3), key=_key, how=st.sampled_from(["no-encryptor", "encryptor(sel)", "write_file", "other-encryptors"]),
                                       empty_writers=st.booleans()))
@@ -265,6 +276,7 @@ def strat_rawder(tier):
 def parts(tier):
     return [
         Part("pinned", check=check_pinned, enum=enum_pinned, quick=(1, 0), thorough=(1, 0), exhaustive=True),
+        Part("leading_zero", check=check_leading_zero, enum=enum_leading_zero, quick=(4, 0), thorough=(8, 0)),
         Part("explicit", check=check_explicit, strategy=strat_explicit, quick=(16, 150), thorough=(16, 2500)),
         Part("default", check=check_default, strategy=strat_default, quick=(16, 100), thorough=(16, 1500)),
         Part("interop", check=check_interop, strategy=strat_interop, quick=(16, 60), thorough=(16, 1000)),
